@@ -2,9 +2,9 @@ package rules
 
 import (
 	"fmt"
-	"sort"
 	"go/token"
 	"go/types"
+	"sort"
 	"strings"
 
 	"golang.org/x/tools/go/ssa"
@@ -35,11 +35,12 @@ type reloadAnchors struct {
 	startC      *ssa.Call       // the call of startFn inside owner
 	callers     []*ssa.Function // functions calling runCfg (loadConfig)
 	lsType      string
+	serverT     string
 	startRegion map[*ssa.Function]bool // functions of the start code (set by C09.BIND)
 }
 
 func findReload(c *Ctx, rule string) *reloadAnchors {
-	a := &reloadAnchors{lsType: mainPkg + ".listenerSet"}
+	a := &reloadAnchors{lsType: mainM(c).lsT, serverT: mainM(c).serverT}
 	allocs := c.P.Allocs(a.lsType)
 	if len(allocs) != 1 {
 		c.Undecided(rule, "anchor:listenerSet-owner", "-", fmt.Sprintf("expected exactly one allocation site of %s, found %d", a.lsType, len(allocs)))
@@ -98,7 +99,7 @@ func findReload(c *Ctx, rule string) *reloadAnchors {
 	// reload roots: climb to the function whose helper region contains the whole read/parse/validate/start/stop sequence
 	hasValidate := func(f *ssa.Function) bool {
 		reg := c.NewRegion(f, 3, func(h *ssa.Function) bool { return eng.PkgPathOf(h) != eng.Mod+"/"+mainPkg || h == a.runCfg })
-		return len(reg.FindCalls(func(n string, _ *ssa.Call) bool { return n == "(*"+mainPkg+".Config).Validate" })) > 0
+		return len(reg.FindCalls(func(n string, _ *ssa.Call) bool { return n == mainM(c).name(mainM(c).validate) })) > 0
 	}
 	var roots []*ssa.Function
 	for _, f := range a.callers {
@@ -198,14 +199,14 @@ func stopSites(c *Ctx, fn *ssa.Function, stopField string) []ssa.CallInstruction
 	var out []ssa.CallInstruction
 	for _, cl := range eng.Calls(fn) {
 		n := eng.CalleeName(cl.Common())
-		if n == "(*"+mainPkg+".OutlineServer).Stop" {
+		if n == "(*"+mainM(c).serverT+").Stop" {
 			out = append(out, cl)
 			continue
 		}
 		if cl.Common().IsInvoke() || cl.Common().StaticCallee() != nil {
 			continue
 		}
-		if c.P.AnyFrom(cl.Common().Value, eng.Plain, func(v ssa.Value) bool { return eng.IsFieldLoad(v, mainPkg+".OutlineServer", stopField) }) {
+		if c.P.AnyFrom(cl.Common().Value, eng.Plain, func(v ssa.Value) bool { return eng.IsFieldLoad(v, mainM(c).serverT, stopField) }) {
 			out = append(out, cl)
 		}
 	}
@@ -214,7 +215,7 @@ func stopSites(c *Ctx, fn *ssa.Function, stopField string) []ssa.CallInstruction
 
 // stopFuncField finds the func-typed field of OutlineServer that receives result 0 of runConfig somewhere.
 func stopFuncField(c *Ctx) string {
-	for _, f := range c.P.StructFields(mainPkg + ".OutlineServer") {
+	for _, f := range c.P.StructFields(mainM(c).serverT) {
 		if sig, ok := f.Type().Underlying().(*types.Signature); ok && sig.Params().Len() == 0 && errorResultIndex(sig) == 0 {
 			return f.Name()
 		}
@@ -251,11 +252,11 @@ func ruleValidate(c *Ctx, a *reloadAnchors) {
 			name   string
 			errIdx int
 		}
-		guards := []guard{{"os.ReadFile", 1}, {mainPkg + ".readConfig", 1}, {"(*" + mainPkg + ".Config).Validate", 0}}
+		guards := []guard{{"os.ReadFile", 1}, {mainM(c).name(mainM(c).readCfg), 1}, {mainM(c).name(mainM(c).validate), 0}}
 		deepIdx := eng.OriginOpts{ThroughConvert: true, ThroughIndex: true, Interproc: true}
 		isParsed := func(v ssa.Value) bool {
 			call, idx, ok := eng.AsResult(v)
-			return ok && idx == 0 && eng.CalleeName(&call.Call) == mainPkg+".readConfig"
+			return ok && idx == 0 && eng.CalleeName(&call.Call) == mainM(c).name(mainM(c).readCfg)
 		}
 		for _, rc := range runCalls {
 			for _, g := range guards {
@@ -294,7 +295,7 @@ func ruleValidate(c *Ctx, a *reloadAnchors) {
 				}
 			}
 			c.CheckAt("VALIDATE", short(lc)+":started-config-is-parsed-config", rc, okSame, "the configuration passed to start does not derive (only) from the parse result")
-			for _, vc := range reg.FindCalls(func(nm string, _ *ssa.Call) bool { return nm == "(*"+mainPkg+".Config).Validate" }) {
+			for _, vc := range reg.FindCalls(func(nm string, _ *ssa.Call) bool { return nm == mainM(c).name(mainM(c).validate) }) {
 				okV, _ := p.AllFrom(vc.Call.Args[0], deepIdx, isParsed)
 				c.CheckAt("VALIDATE", short(lc)+":validated-config-is-parsed-config", vc, okV, "Validate is called on something other than the parse result")
 			}
@@ -349,7 +350,7 @@ func enumSets(c *Ctx, reg *Region) map[string]map[string]bool {
 // original value).
 func ruleValidateAgrees(c *Ctx, a *reloadAnchors) {
 	p := c.P
-	val := p.Fn("(*" + mainPkg + ".Config).Validate")
+	val := mainM(c).validate
 	if val == nil {
 		c.Undecided("VALIDATE", "anchor:Validate", "-", "Config.Validate not found")
 		return
@@ -543,7 +544,7 @@ func ruleKeepOld(c *Ctx, a *reloadAnchors, rule string) {
 	p := c.P
 	field := stopFuncField(c)
 	if field == "" {
-		c.Undecided(rule, "anchor:stop-function-field", "-", "OutlineServer has no func() error field")
+		c.Undecided(rule, "anchor:stop-function-field", "-", "the server object has no func() error field")
 		return
 	}
 	n := 0
@@ -570,7 +571,7 @@ func ruleKeepOld(c *Ctx, a *reloadAnchors, rule string) {
 			n++
 		}
 		c.Floor(rule, "stop-old sites in the reload path of "+short(lc), len(stops), 1)
-		for _, st := range p.FieldStores(mainPkg+".OutlineServer", field) {
+		for _, st := range p.FieldStores(mainM(c).serverT, field) {
 			if !reg.In[st.Fn] || st.Fresh {
 				continue
 			}
@@ -584,7 +585,7 @@ func ruleKeepOld(c *Ctx, a *reloadAnchors, rule string) {
 		}
 	}
 	// all other writers of the field: constructors only (fresh object)
-	for _, st := range p.FieldStores(mainPkg+".OutlineServer", field) {
+	for _, st := range p.FieldStores(mainM(c).serverT, field) {
 		inReload := false
 		for _, lc := range a.callers {
 			if a.region(c, lc).In[st.Fn] {
